@@ -1,8 +1,18 @@
 // ---------------------------------------------------------------------------------------------
 // Serialized form of InternalKey (src/key.rs): user key ++ le8(sequence) ++ [operation].
 // ---------------------------------------------------------------------------------------------
-//@enum src/errors.rs :: RainDBError keep: KeyParsing KeyNotFound Other
+//@include specs/common/read_error.vs
+//@enum src/errors.rs :: RainDBError keep: TableRead KeyParsing KeyNotFound Other derive: Debug
 //@type src/errors.rs :: RainDBResult
+//@impl src/errors.rs :: impl From<ReadError> for RainDBError
+//@fn from
+//@sig
+//@endfn
+//@endimpl
+impl FromSpecImpl<ReadError> for RainDBError {
+    open spec fn obeys_from_spec() -> bool { true }
+    open spec fn from_spec(e: ReadError) -> Self { RainDBError::TableRead(e) }
+}
 //@item src/key.rs :: trait RainDbKeyType
 
 pub open spec fn op_code(o: Operation) -> u8 { match o { Operation::Delete => 0u8, Operation::Put => 1u8 } }
